@@ -244,3 +244,80 @@ func Filler(tableType, nBytes int) *gtab.LookupTable {
 		Subtables: []gtab.Subtable{&gtab.SeqContext3{Input: []coverage.Set{set}}},
 	}
 }
+
+// GdefShapes names the GDEF shapes Gdef never produces (see GdefShape).
+var GdefShapes = []string{"glyphclass>4", "many-sets", "large-sets", "sets-offset-near-limit", "attach-offset-near-limit"}
+
+// GdefShape generates a GDEF table of one of the shapes in GdefShapes:
+//
+//	glyphclass>4              glyph class values beyond the four defined classes
+//	many-sets                 100 … 1500 mark glyph sets (some empty, some shared glyphs)
+//	large-sets                a few mark glyph sets of 20000 … 65536 glyphs: the 32-bit set offsets exceed 64 KiB
+//	sets-offset-near-limit    class tables sized so that the mark glyph sets table starts at 0x10000+d
+//	attach-offset-near-limit  a glyph class table sized so that the mark attachment class table starts at 0x10000+d
+//
+// d (even) is only used by the last two shapes.
+func GdefShape(r *rand.Rand, shape string, d int) *gdef.Table {
+	alternating := func(start, n int) classdef.Table {
+		// n consecutive glyphs with classes 1,2,1,2…: format 1 with 6+2n bytes
+		// is the smaller encoding for n >= 2
+		t := make(classdef.Table, n)
+		for i := 0; i < n; i++ {
+			t[glyph.ID(start+i)] = uint16(1 + i%2)
+		}
+		return t
+	}
+	t := &gdef.Table{}
+	switch shape {
+	case "glyphclass>4":
+		t = Gdef(r, []int{40, 300, 65536}[r.IntN(3)])
+		if t.GlyphClass == nil {
+			t.GlyphClass = classdef.Table{}
+		}
+		odd := []uint16{5, 6, 7, 255, 256, 0x7FFF, 0x8000, 0xFFFE, 0xFFFF}
+		for _, g := range GIDs(r, 1+r.IntN(40), 0xFFFF) {
+			t.GlyphClass[g] = odd[r.IntN(len(odd))]
+		}
+	case "many-sets":
+		t = Gdef(r, 300)
+		n := 100 + r.IntN(1401)
+		o := Opts{MaxGID: []int{40, 5000, 0xFFFF}[r.IntN(3)]}
+		t.MarkGlyphSets = make([]coverage.Set, n)
+		for i := range t.MarkGlyphSets {
+			t.MarkGlyphSets[i] = CoverageSetN(r, r.IntN(6), o)
+		}
+	case "large-sets":
+		t = Gdef(r, 300)
+		n := 2 + r.IntN(4)
+		t.MarkGlyphSets = make([]coverage.Set, n)
+		for i := range t.MarkGlyphSets {
+			// scattered glyphs: coverage format 1, two bytes per glyph
+			t.MarkGlyphSets[i] = CoverageSetN(r, 20000+r.IntN(20000), Opts{})
+		}
+		t.MarkGlyphSets[r.IntN(n)] = CoverageSetN(r, 65536, Opts{})
+		t.MarkGlyphSets = append(t.MarkGlyphSets, CoverageSetN(r, r.IntN(4), Opts{})) // a small one behind 64 KiB
+	case "sets-offset-near-limit":
+		// 14 + (6+2a) + (6+2b) = 0x10000 + d
+		total := (0x10000 + d - 14 - 12) / 2
+		a := 2 + r.IntN(total-3)
+		b := total - a
+		t.GlyphClass = alternating(r.IntN(0x10000-a), a)
+		t.MarkAttachClass = alternating(r.IntN(0x10000-b), b)
+		t.MarkGlyphSets = []coverage.Set{CoverageSetN(r, r.IntN(5), Opts{}), CoverageSetN(r, 1+r.IntN(5), Opts{})}
+	case "attach-offset-near-limit":
+		hdr := 12
+		if r.IntN(2) == 0 {
+			hdr = 14
+			t.MarkGlyphSets = []coverage.Set{CoverageSetN(r, r.IntN(5), Opts{})}
+		}
+		a := (0x10000 + d - hdr - 6) / 2
+		t.GlyphClass = alternating(r.IntN(0x10000-a), a)
+		t.MarkAttachClass = ClassDef(r, 1+r.IntN(4), Opts{Size: Small})
+		if len(t.MarkAttachClass) == 0 {
+			t.MarkAttachClass[GID(r, Opts{})] = 1
+		}
+	default:
+		panic("otl.GdefShape: unknown shape " + shape)
+	}
+	return t
+}
